@@ -47,7 +47,13 @@ def cases(draw, tier):
                                    "small"]))
     else:
         vk = draw(st.sampled_from(["int", "dyadic", "count"]))
-    spec = draw(gen.table_specs(tier, values=vk, md=True, history=True))
+    idk = draw(st.sampled_from(["simple", "simple", "tsv"])) \
+        if kind in ("summarize", "table_ids", "head") else "simple"
+    spec = draw(gen.table_specs(tier, values=vk, md=True, history=True,
+                                ids=idk))
+    if idk == "tsv":
+        spec["history"] = [o for o in spec["history"]
+                           if o["op"] != "rename"]
     if kind in ("md_dataframe", "export_metadata", "summarize"):
         for key, ids in (("obs_md", spec["obs"]), ("samp_md", spec["samp"])):
             if draw(st.integers(0, 3)) != 0:
@@ -76,7 +82,8 @@ def cases(draw, tier):
             "axis": draw(st.sampled_from(["sample", "observation", "whole"])),
             "flag": draw(st.booleans()), "flag2": draw(st.booleans()),
             "n": draw(st.integers(1, 7)), "m": draw(st.integers(1, 7)),
-            "f": draw(st.sampled_from(["add", "max", "first"])),
+            "f": draw(st.sampled_from(["add", "max", "first", "count",
+                                       "sub1"])),
             "sub": kind in ("summarize", "table_ids", "head",
                             "export_metadata") and
             draw(st.sampled_from([False] * 40 + [True]))}
@@ -177,11 +184,13 @@ def check(case, rec):
                                                            sorted(want)))
     elif kind == "reduce":
         ax = axis if axis != "whole" else "sample"
+        import functools
         f = {"add": lambda a, b: a + b, "max": lambda a, b: max(a, b),
-             "first": lambda a, b: a}[case["f"]]
+             "first": lambda a, b: a, "count": lambda a, b: a + 1,
+             "sub1": lambda a, b: a - b + 1}[case["f"]]
         vecs = ref.vectors(ax)
-        want = [{"add": sum(v), "max": max(v), "first": v[0]}[case["f"]]
-                for v in vecs]
+        # the left fold over the complete dense vector
+        want = [functools.reduce(f, v) for v in vecs]
         same(t.reduce(f, ax), want, "reduce(%s, %s)" % (case["f"], ax))
     elif kind == "stats":
         from biom.util import compute_counts_per_sample_stats
